@@ -20,10 +20,10 @@ def pktName (w : Net) : Option Handle → String
   | some h => match w.pidOf h with | some p => toString p | none => "u"
 
 def dumpNode (w : Net) (nd : Node) : String :=
-  let pend := sortStrs (nd.vpnIps.map (fun (a, hh) =>
+  let pend := sortStrs (nd.p.vpnIps.map (fun (a, hh) =>
     s!"{a}:{hh.localIndex}:{hh.counter}:{if hh.ready then 1 else 0}:{hh.store.length}"))
-  let pidx := sortStrs (nd.pindexes.map (fun (i, pid) =>
-    s!"{i}>{match nd.pendingById pid with | some p => toString p.vpnAddr | none => "?"}"))
+  let pidx := sortStrs (nd.p.pindexes.map (fun (i, pid) =>
+    s!"{i}>{match nd.p.pendingById pid with | some p => toString p.vpnAddr | none => "?"}"))
   let hosts := sortStrs (nd.main.hosts.map (fun (a, l) => s!"{a}=" ++ join "/" (l.map (fun h => toString h.localIndex))))
   let idx := (sortByKey nd.main.indexes).map (fun (k, h) =>
     s!"{k}:{h.localIndex}:{h.remoteIndex}:{h.hsTime}:" ++ join "+" (h.vpnAddrs.map toString) ++
@@ -54,7 +54,8 @@ def parseSpec (node : Nat) (retries : Int) (intervalMs : Nat) (s : String) : Opt
     match v.toNat? with
     | some v =>
       if addrs.isEmpty || v < 1 || v > 3 then none else
-      some { node := node, myAddrs := if v == 2 then addrs else addrs.take 1, hasV1 := v == 1 || v == 3, hasV2 := v == 2 || v == 3,
+      -- a v2 certificate stores its networks sorted
+      some { node := node, myAddrs := if v == 2 then addrs.foldl (fun acc a => insertSorted a acc) [] else addrs.take 1, hasV1 := v == 1 || v == 3, hasV2 := v == 2 || v == 3,
              retries := retries, interval := intervalMs * 1000000 }
     | none => none
   | _ => none
@@ -69,6 +70,8 @@ def parseOp (a : List String) : Option Op :=
   | ["sleep", ms] => do pure (.sleep (← ms.toNat?))
   | ["deliver", k] => do pure (.deliver (← k.toNat?))
   | ["dto", k, m] => do pure (.dto (← k.toNat?) (← m.toNat?))
+  | ["dl", j] => do pure (.dl (← j.toNat?))
+  | ["dlto", j, m] => do pure (.dlto (← j.toNat?) (← m.toNat?))
   | ["send", n, x, p, l] => do pure (.send (← n.toNat?) (← x.toNat?) (← p.toNat?) (← l.toNat?))
   | ["idx", n, v] => do pure (.idx (← n.toNat?) (← v.toNat?))
   | ["del", n, li] => do pure (.del (← n.toNat?) (← li.toNat?))
@@ -84,9 +87,9 @@ structure St where
 /-- keep the retry specification's set of pending handshakes in step with the lifecycle (creation,
 completion, abandonment for other reasons); the schedule and the counters are the specification's own -/
 def syncRetry (r : HsRetry.St) (nd : Node) : HsRetry.St :=
-  let live := nd.vpnIps.map (fun p => p.2.id)
+  let live := nd.p.vpnIps.map (fun p => p.2.id)
   let r := { r with entries := r.entries.filter (fun e => live.contains e.obj) }
-  nd.vpnIps.reverse.foldl (fun r (a, hh) => if r.entries.any (·.obj == hh.id) then r else r.start a hh.id) r
+  nd.p.vpnIps.reverse.foldl (fun r (a, hh) => if r.entries.any (·.obj == hh.id) then r else r.start a hh.id) r
 
 def sectionsOf (s : String) : List String := (s.splitOn " ").filter (· ≠ "")
 
@@ -134,9 +137,9 @@ def step (s : St) (args : List String) (impl : String) : St × Out :=
           let r2 := syncRetry r1 nd'
           let s' : St := { w := w', retry := s.retry.set n r2,
                            tainted := ((s.tainted.filter (fun (m, a) => m != n ||
-                                (nd'.vpnIps.any (·.1 == a) && nd'.wheel.slots.flatten.count a > 0))) ++
-                              (nd'.vpnIps.map (·.1)).filterMap (fun a =>
-                              if nd'.wheel.slots.flatten.count a > 1 then some (n, a) else none)).eraseDups }
+                                (nd'.p.vpnIps.any (·.1 == a) && nd'.p.wheel.slots.flatten.count a > 0))) ++
+                              (nd'.p.vpnIps.map (·.1)).filterMap (fun a =>
+                              if nd'.p.wheel.slots.flatten.count a > 1 then some (n, a) else none)).eraseDups }
           -- property oracles on the implementation's answer
           let secs := sectionsOf impl
           let preDump := sectionsOf (dumpNode pre nd)
@@ -149,8 +152,8 @@ def step (s : St) (args : List String) (impl : String) : St × Out :=
           let kind := HsManager.classify pre op
           let v09 := HsManager.c09 ctx kind
           let v10 := HsManager.c10 ctx kind (fun h => (w'.pidOf h).getD 0)
-          let tainted := (nd.vpnIps.map (·.1) ++ nd'.vpnIps.map (·.1)).filter (fun a =>
-            (nd.wheel.slots.flatten.count a > 1) || (nd'.wheel.slots.flatten.count a > 1) ||
+          let tainted := (nd.p.vpnIps.map (·.1) ++ nd'.p.vpnIps.map (·.1)).filter (fun a =>
+            (nd.p.wheel.slots.flatten.count a > 1) || (nd'.p.wheel.slots.flatten.count a > 1) ||
             s.tainted.contains (n, a))
           let v32 := HsManager.c32 ctx kind nd.cfg (match op with | .tick _ => some r1view | .trig .. => some r1view | _ => none) tainted
           let verdict := if secs.length != 7 then (if impl == model then "ok" else "bad malformed-answer") else
